@@ -158,14 +158,17 @@ def Frame.exprs (f : Frame) : List Datum :=
   | none => []
   | some d => d :: f.restRev.reverse
 
+/-- a push after the dotted tail has been read: "improper list must have a single cdr" -/
+def Frame.dotBad (f : Frame) : Bool :=
+  match f.dot with
+  | some (idx, _) => idx != f.len
+  | none => false
+
 /-- `Frame::push`; `isByte` = the expression is an atom with `byte().is_some()`;
     `info` = `some (args, improper)` when the expression is an `ExprKind::List` -/
 def Frame.push (f : Frame) (d : Datum) (sp : Span) (isByte : Bool)
     (info : Option (List Datum × Bool) := none) : Except ReadErr Frame :=
-  let dotBad := match f.dot with
-    | some (idx, _) => idx != f.len
-    | none => false
-  if dotBad then .error ⟨.syntax .dotCdr, sp.1, sp.2⟩
+  if f.dotBad then .error ⟨.syntax .dotCdr, sp.1, sp.2⟩
   else if f.pmod == some .bytes && !isByte then .error ⟨.syntax .bytesRange, sp.1, sp.2⟩
   else if f.comment > 0 then .ok { f with comment := f.comment - 1 }
   else match f.first with
